@@ -1,6 +1,9 @@
 import Blackbird.Props.C08
+import Blackbird.Props.C08Script
 #print axioms Blackbird.C08_rrt_pairing
 #print axioms Blackbird.C08_rrt_symbols
 #print axioms Blackbird.C08_rrt_regrefs
 #print axioms Blackbird.C08_wrapped_iff
 #print axioms Blackbird.C08_plain_values_stay
+#print axioms Blackbird.C08_transform_computes_written_formula
+#print axioms Blackbird.C08_register_argument_is_transform
